@@ -60,30 +60,40 @@ LaneRol(w, x, k) ==
         IN IF kk = 0 THEN x ELSE <<((v * Pow2(kk)) % Pow2(w)) + (v \div Pow2(w - kk))>>
 
 \* ---- round constants (FIPS 202 algorithms 5 and 6) --------------------------
-\* R is the 8-bit register R[0..7] as the number sum R[i] 2^i; "R = 0 || R" doubles it, R[8] is bit 8 and
-\* is folded into R[0], R[4], R[5], R[6] (0x171 = 369 also clears bit 8).  rc(t) = R[0] after t steps.
-RECURSIVE RcGen(_,_,_)
-RcGen(R, t, acc) == IF t = 255 THEN acc
-                    ELSE LET R2 == 2*R IN RcGen(IF R2 >= 256 THEN R2 ^^ 369 ELSE R2, t+1, Append(acc, R % 2))
-KeccakRcBits == RcGen(1, 0, <<>>)
-KeccakRc(t) == KeccakRcBits[((((t % 255)) + 255) % 255) + 1]           \* rc(t mod 255), any integer t
-\* RC[ir] for w = 64: bit 2^j - 1 is rc(j + 7 ir), j = 0..6, i.e. bits 0, 1, 3, 7, 15, 31, 63
-KeccakRC64(ir) == <<KeccakRc(7*ir) + 2*KeccakRc(7*ir + 1) + 8*KeccakRc(7*ir + 2) + 128*KeccakRc(7*ir + 3)
-                      + 32768*KeccakRc(7*ir + 4),
-                    32768*KeccakRc(7*ir + 5), 0, 32768*KeccakRc(7*ir + 6)>>
-KeccakRCTab == BuildW(KeccakRC64, 0, 24, <<>>)
+\* The 8-bit LFSR register R[0..7] is the number sum R[i] 2^i; "R = 0 || R" doubles it, R[8] is bit 8 and is
+\* folded into R[0], R[4], R[5], R[6] (0x171 = 369 also clears bit 8, x^8 + x^6 + x^5 + x^4 + 1).
+\* rc(t) = R[0] after t mod 255 steps from R = 1.
+\* (The bound names kc* in this section are deliberately unusual, see the note in the header.)
+LfsrStep(kcR) == IF 2*kcR >= 256 THEN (2*kcR) ^^ 369 ELSE 2*kcR
+RECURSIVE LfsrRun(_,_)
+LfsrRun(kcR, kcN) == IF kcN = 0 THEN kcR ELSE LfsrRun(LfsrStep(kcR), kcN - 1)
+KeccakRc(kcT) == LfsrRun(1, (((kcT % 255)) + 255) % 255) % 2               \* rc(t), any integer t
+\* RC[ir] for w = 64 from the register kcR reached after 7 ir steps: bit 2^j - 1 is rc(j + 7 ir), j = 0..6,
+\* i.e. bits 0, 1, 3, 7, 15 (limb 0), 31 (limb 1), 63 (limb 3)
+RC64FromLfsr(kcR) ==
+   <<(kcR % 2) + 2*(LfsrRun(kcR, 1) % 2) + 8*(LfsrRun(kcR, 2) % 2) + 128*(LfsrRun(kcR, 3) % 2)
+       + 32768*(LfsrRun(kcR, 4) % 2),
+     32768*(LfsrRun(kcR, 5) % 2), 0, 32768*(LfsrRun(kcR, 6) % 2)>>
+KeccakRC64(kcIr) == RC64FromLfsr(LfsrRun(1, (((7*kcIr) % 255) + 255) % 255))   \* any integer ir
+RECURSIVE RcTabGen(_,_,_)
+RcTabGen(kcR, kcN, kcAcc) == IF kcN = 24 THEN kcAcc
+                             ELSE RcTabGen(LfsrRun(kcR, 7), kcN + 1, Append(kcAcc, RC64FromLfsr(kcR)))
+KeccakRCTab == RcTabGen(1, 0, <<>>)                                       \* RC[0..23], w = 64
 \* truncation to w bits keeps exactly the bits 2^j - 1 with j <= log2(w)
 KeccakRC(w, ir) == LET c == IF ir >= 0 /\ ir < 24 THEN KeccakRCTab[ir + 1] ELSE KeccakRC64(ir)
                    IN IF w = 64 THEN c ELSE IF w = 32 THEN <<c[1], c[2]>> ELSE <<c[1] % Pow2(w)>>
 
 \* ---- rho offsets and the pi index map (FIPS 202 algorithms 2 and 3) ---------
 RECURSIVE RhoWalk(_,_,_,_)
-RhoWalk(t, x, y, acc) == IF t = 24 THEN acc
-                         ELSE RhoWalk(t+1, y, (2*x + 3*y) % 5, [acc EXCEPT ![5*y + x + 1] = ((t+1)*(t+2)) \div 2])
-KeccakRho == RhoWalk(0, 1, 0, ZeroW(25))
-\* pi: A'[X, Y] = A[(X + 3Y) mod 5, X]
-PiSrcAt(i) == LET X == i % 5  Y == i \div 5 IN 5*X + ((X + 3*Y) % 5) + 1
-KeccakPiSrc == BuildW(PiSrcAt, 0, 25, <<>>)
+RhoWalk(kcT, kcX, kcY, kcAcc) ==
+   IF kcT = 24 THEN kcAcc
+   ELSE RhoWalk(kcT + 1, kcY, (2*kcX + 3*kcY) % 5, [kcAcc EXCEPT ![5*kcY + kcX + 1] = ((kcT + 1)*(kcT + 2)) \div 2])
+KeccakRho == RhoWalk(0, 1, 0, <<0,0,0,0,0, 0,0,0,0,0, 0,0,0,0,0, 0,0,0,0,0, 0,0,0,0,0>>)
+\* pi: A'[X, Y] = A[(X + 3Y) mod 5, X]; 0-based target index kcN = 5Y + X
+RECURSIVE PiSrcGen(_,_)
+PiSrcGen(kcN, kcAcc) == IF kcN = 25 THEN kcAcc
+                        ELSE PiSrcGen(kcN + 1, Append(kcAcc, 5*(kcN % 5) + (((kcN % 5) + 3*(kcN \div 5)) % 5) + 1))
+KeccakPiSrc == PiSrcGen(0, <<>>)
 
 \* ---- one round ------------------------------------------------------------------
 KeccakRound(w, A, ir) ==
